@@ -120,6 +120,82 @@ def write_char_contract(ex, st, args, kwargs, node):
         ex.sol.pop()
 
 
+def _emit_unit(ex, st, writer, unit_items, changed_term, node):
+    """emit a whole unit (several characters) through the writer's stream; yields states"""
+    stream = writer.fields.get("__stream__")
+    if stream is None:
+        raise Unsupported("write outside a writer loop")
+
+    def go(s, i):
+        if i == len(unit_items):
+            yield s
+            return
+        for s2 in stream.spec.emit(ex, s, stream, [unit_items[i]], node):
+            yield from go(s2, i + 1)
+    for s2 in go(st, 0):
+        w = s2.tr(writer)
+        old = w.fields["changed"]
+        oldt = old.t if isinstance(old, VInt) else z3.If(old.t, 1, 0)
+        w.fields["changed"] = VInt(V.name_term(s2.ctx, z3.If(z3.Or(oldt != 0, changed_term), 1, 0), "chg"))
+        yield s2
+
+
+def _hexch(d):
+    return z3.If(d < 10, d + 48, d + 55)
+
+
+def write_pct_contract(ex, st, args, kwargs, node):
+    """_write_pct(writer, ch, changed) for 0 <= ch < 256: appends '%', hex(ch >> 4), hex(ch & 15)
+    (upper case) and or-s `changed` into the flag, returning 0 -- or fails with -1 / MemoryError.
+    Justified for the function itself by the exhaustive obligation over all 256 x 2 arguments
+    (contracts/finite_c.py) and by the Writer obligations for the failure branch."""
+    writer, ch, changed = args
+    c = _code(ex, ch)
+    ex.oblige(st, "_write_pct-argument-is-a-byte", "safety", z3.And(c >= 0, c < 256), node, {})
+    other = st.fork()
+    ex.sol.push()
+    try:
+        cht = changed.t if isinstance(changed, VBool) else (changed.t != 0)
+        items = [VInt(37), VInt(V.name_term(st.ctx, _hexch(c / 16), "hx")), VInt(V.name_term(st.ctx, _hexch(c % 16), "hx"))]
+        for s2 in _emit_unit(ex, st, writer, items, cht, node):
+            yield VInt(0), s2
+    finally:
+        ex.sol.pop()
+    ex.sol.push()
+    try:
+        other.pending_exc = MemoryError
+        yield VInt(-1), other
+    finally:
+        ex.sol.pop()
+
+
+def write_utf8_contract(ex, st, args, kwargs, node):
+    """_write_utf8(writer, symbol): appends the percent-encoded UTF-8 bytes of the code point
+    (nothing for a lone surrogate) and sets the changed flag -- or fails with -1.  Justified for
+    the function itself by the exhaustive obligation over all 1 114 112 code points."""
+    from contracts import spec_quote
+    from .verify import call_spec
+    from .engine import Raised
+    writer, symbol = args
+    c = VInt(_code(ex, symbol))
+    other = st.fork()
+    ex.sol.push()
+    try:
+        for unit, s1 in call_spec(ex, st, ex.wrap(spec_quote.utf8_unit), [c], {}, node):
+            if isinstance(unit, Raised):
+                raise Unsupported("utf8_unit raised")
+            for s2 in _emit_unit(ex, s1, s1.tr(writer), list(unit.items), z3.BoolVal(True), node):
+                yield VInt(0), s2
+    finally:
+        ex.sol.pop()
+    ex.sol.push()
+    try:
+        other.pending_exc = MemoryError
+        yield VInt(-1), other
+    finally:
+        ex.sol.pop()
+
+
 def _find_writer(st, writer):
     # after a fork the writer object is a clone reachable through the frames
     env = st.env
